@@ -89,6 +89,15 @@ Example C16_fresh_address_example :
   = ([2; 1; 0], 3, Some 2, 2).
 Proof. vm_compute. reflexivity. Qed.
 
+(* The server of a session ends when its connection ends (server.py): after any number k of
+   ordinary requests - k = 0 included: a session that was only pre-started - the close request, the
+   disappearance of the client end (EOF) or undecodable input ends the server process, which has
+   answered exactly those k requests; it accepts one connection in its life. *)
+Theorem C16_server_ends_with_connection : forall k e rest,
+  e <> EvRequest -> srv_run (repeat EvRequest k ++ e :: rest) = SrvExited k.
+Proof. exact server_ends. Qed.
+Print Assumptions C16_server_ends_with_connection.
+
 (* F3 on the pinned tree: run() tests self.prepare_thread and reads it again to join it; the
    starter clears it in between (2 threads, 19 scheduled lines) -> the caller unwinds run() with
    AttributeError although the launch succeeded. *)
